@@ -1,6 +1,6 @@
 SPECIFICATION Spec
-CONSTANTS MaxBits = 5
-          Ns = {1, 2, 3, 4, 5, 8, 9, 17, 64}
+CONSTANTS MaxBits = 3
+          Ns = {1, 2, 3, 4, 5, 7, 8, 9, 15, 16, 17, 31, 32, 33, 64, 1024}
 INVARIANT InvProducts
 INVARIANT InvZero
 INVARIANT InvFixedTimesFixedExact
